@@ -107,6 +107,44 @@ def r1(ctx):
                         ok = bool(rets) and all(cval(unwrap(ev.e)) == EMSGSIZE for (ev, _p) in rets) and not hits
             ctx.check('R1', '%s:too-big-returns-EMSGSIZE' % fname, ok, f, 'too big returns -EMSGSIZE and sends nothing', 'the too-big edge does not return -EMSGSIZE')
             continue
+        if lenp is None and helper is None:
+            # the same test written into the function itself: every element compared with what is left of the maximum before it is added
+            acc0 = [ev for ev in f.events('STORE') if ev.d['op'] == '+=' and field_is(ev.rhs, 'iov_len') and unwrap(ev.lhs).get('k') == 'var']
+            if len(acc0) == 1:
+                tot = unwrap(acc0[0].lhs)['n']
+                elem = estr(unwrap(acc0[0].rhs))
+                gl = [a for (a, _e) in f.guards_live(acc0[0])]
+                room = [a for a in gl if a.ls == elem and a.op == '<=' and field_is(unwrap(a.r).get('l', {}), 'max_msg_size') and chan in a.rs and
+                        unwrap(a.r).get('k') == 'bin' and unwrap(a.r).get('op') == '-' and estr(unwrap(unwrap(a.r)['r'])) == tot]
+                if room:
+                    ixs = [estr(n['i']) for n in walk(acc0[0].rhs) if n.get('k') == 'idx']
+                    npar = f.params[2]['n']
+                    in_loop = any(a.ls == ixs[0] and a.op == '<' and a.rs == npar for a in gl) if ixs else False
+                    inits = [ev for ev in f.events() if ixs and ((ev.kind == 'STORE' and estr(ev.lhs) == ixs[0] and ev.d['op'] == '=') or (ev.kind == 'DECL' and ev.d['var'] == ixs[0] and 'init' in ev.d))]
+                    zero_i = bool(inits) and all(cval(unwrap(ev.rhs if ev.kind == 'STORE' else ev.d['init'])) == 0 for ev in inits)
+                    tin = [ev for ev in f.events() if (ev.kind == 'STORE' and estr(ev.lhs) == tot and ev.d['op'] == '=') or (ev.kind == 'DECL' and ev.d['var'] == tot)]
+                    zero_t = bool(tin) and all(cval(unwrap(ev.rhs if ev.kind == 'STORE' else ev.d.get('init') or {})) == 0 for ev in tin)
+
+                    def done(a, fb, ix=ixs[0] if ixs else None, npar=npar):
+                        return a.ls == ix and a.op == '>=' and a.rs == npar
+                    after_loop = f.uncut_path(sends[0], done) is None
+                    wide = prog.type_info(unwrap(acc0[0].lhs).get('ty', '')).get('bits', 0) >= 64
+                    ctx.check('R1', '%s:size-gate' % fname, in_loop and zero_i and zero_t and after_loop and wide, sends[0],
+                              'every iovec element is compared with what is left of %s.max_msg_size before it is added (%s-bit total), and the send comes after the whole walk' % (
+                                  chan, prog.type_info(unwrap(acc0[0].lhs).get('ty', '')).get('bits')),
+                              'a message larger than the negotiated maximum can reach the transport send (loop %s, index from 0 %s, total from 0 %s, send after the walk %s, 64-bit total %s)' % (
+                                  in_loop, zero_i, zero_t, after_loop, wide))
+                    ok = False
+                    for b in f.blocks.values():
+                        if b.cond is None:
+                            continue
+                        for (t, lab) in b.succs:
+                            if lab in (True, False) and any(a.ls == elem and a.op == '>' and tot in a.rs and 'max_msg_size' in a.rs for a in atoms_of(b.cond, lab)):
+                                rets, _e, _n = f.search(('edge', b.id, t), goal=lambda ev: ev.kind == 'RETURN')
+                                hits, _e2, _n2 = f.search(('edge', b.id, t), goal=lambda ev: ev is sends[0])
+                                ok = bool(rets) and all(cval(unwrap(ev.e)) == EMSGSIZE for (ev, _p) in rets) and not hits
+                    ctx.check('R1', '%s:too-big-returns-EMSGSIZE' % fname, ok, f, 'too big returns -EMSGSIZE and sends nothing', 'the too-big edge does not return -EMSGSIZE')
+                    continue
         if lenp is not None:
             lv = f.params[lenp]['n']
         else:
@@ -120,6 +158,10 @@ def r1(ctx):
             if len(acc) != 1:
                 raise AnalysisBroken('%s: iovec length accumulation not understood' % fname)
             lv = estr(acc[0].lhs)
+            bits = prog.type_info(unwrap(acc[0].lhs).get('ty', '')).get('bits', 0)
+            ctx.check('R1', '%s:total-cannot-wrap' % fname, bits >= 64, acc[0], 'the total of the iovec lengths is kept in %s bits' % bits,
+                      'the total of the iovec lengths is kept in %s bits and compared after the walk: a message of 4 GiB + 16 bytes passes the size gate as one of 16 '
+                      '(and is then copied into a 16-byte chunk of the request ring)' % bits)
             # the loop covers every element: i from 0 while i < iov_len
             ixs = [estr(n['i']) for n in walk(acc[0].rhs) if n.get('k') == 'idx']
             ok = False
